@@ -1,3 +1,852 @@
 package ed
 
-func Main(args []string) int { return 2 }
+import (
+	"encoding/json"
+	"fmt"
+	"os"
+	"os/exec"
+	"path/filepath"
+	"regexp"
+	"runtime"
+	"sort"
+	"strconv"
+	"strings"
+	"sync"
+	"time"
+
+	"verif/harness/kernel"
+)
+
+// Main dispatches `ed check <id>`, `ed replay <file>`, `ed racepass <id>`.
+func Main(args []string) int {
+	switch args[0] {
+	case "check":
+		if len(args) < 2 {
+			break
+		}
+		switch args[1] {
+		case "C15":
+			return checkC15()
+		case "C10conc":
+			return checkC10()
+		case "C05mon":
+			return checkC05()
+		}
+	case "replay":
+		if len(args) < 2 {
+			break
+		}
+		return replayFile(args[1])
+	case "racepass":
+		if len(args) < 2 {
+			break
+		}
+		return racePass(args[1])
+	}
+	fmt.Fprintln(os.Stderr, "usage: ed check C15|C10conc|C05mon | ed replay <file> | ed racepass <id> | ed worker")
+	return 2
+}
+
+type levelStat struct {
+	Bounds       Bounds `json:"bounds"`
+	Configs      int    `json:"configs"`
+	Jobs         int    `json:"jobs"`
+	Executions   int64  `json:"executions"`
+	Points       int64  `json:"scheduling_points"`
+	ChoicePoints int64  `json:"choice_points"`
+	MaxPoints    int    `json:"max_points_in_one_execution"`
+	Complete     bool   `json:"complete"`
+	WallS        float64 `json:"wall_s"`
+}
+
+type foundV struct {
+	v       Viol
+	job     Job // harness + cfg
+	choices []int
+	count   int64
+}
+
+type grayAgg struct {
+	Count   int64  `json:"executions"`
+	Config  string `json:"example_config"`
+	Choices []int  `json:"example_choices"`
+	Note    string `json:"note"`
+	Replay  string `json:"replay,omitempty"`
+	job     Job
+}
+
+// explorer state shared by the checks
+type campaign struct {
+	prop     string
+	engine   string
+	pool     *pool
+	mu       sync.Mutex
+	deadline time.Time
+	obs      map[string]int64
+	viol     map[string]*foundV
+	gray     map[string]*grayAgg
+	errs     []string
+	totalEx  int64
+	totalPts int64
+	samples  []*Sample
+}
+
+func newCampaign(prop string, budget time.Duration) *campaign {
+	n := runtime.NumCPU()
+	if n > 16 {
+		n = 16
+	}
+	return &campaign{prop: prop, engine: "ed", pool: newPool(n), deadline: time.Now().Add(budget), obs: map[string]int64{}, viol: map[string]*foundV{}, gray: map[string]*grayAgg{}}
+}
+
+// runLevel explores every configuration at the given bounds; the tree of each configuration is split into its
+// depth-2 subtrees, which are the unit of work of the 16 worker processes.
+func (c *campaign) runLevel(name string, jobs []Job, b Bounds) *levelStat {
+	ls := &levelStat{Bounds: b, Configs: len(jobs), Complete: true}
+	t0 := time.Now()
+	collect := func(base Job) func(*JobResult) {
+		return func(jr *JobResult) {
+			c.mu.Lock()
+			defer c.mu.Unlock()
+			ls.Jobs++
+			if jr.Err != "" {
+				c.errs = append(c.errs, jr.Err)
+				ls.Complete = false
+				return
+			}
+			if !jr.Complete {
+				ls.Complete = false
+			}
+			ls.Executions += jr.Executions
+			ls.Points += jr.Points
+			ls.ChoicePoints += jr.ChoicePoints
+			if jr.MaxPoints > ls.MaxPoints {
+				ls.MaxPoints = jr.MaxPoints
+			}
+			c.totalEx += jr.Executions
+			c.totalPts += jr.Points
+			for o, n := range jr.Obs {
+				c.obs[name+" :: "+o] += n
+			}
+			for sig, n := range jr.ViolCount {
+				fv := c.viol[sig]
+				if fv == nil {
+					for _, x := range jr.Viol {
+						if x.Viol.Sig == sig {
+							fv = &foundV{v: x.Viol, job: base, choices: x.Choices}
+							break
+						}
+					}
+					if fv == nil {
+						continue
+					}
+					c.viol[sig] = fv
+				}
+				fv.count += n
+			}
+			for sig, g := range jr.Gray {
+				ga := c.gray[sig]
+				if ga == nil {
+					ga = &grayAgg{Config: base.cfgString(), Choices: g.Example, Note: g.Note, job: base}
+					c.gray[sig] = ga
+				}
+				ga.Count += g.Count
+			}
+		}
+	}
+	for i := range jobs {
+		base := jobs[i]
+		base.B = b
+		if b.Total < 2 {
+			j := base
+			j.Mode = "explore"
+			j.Deadline = c.deadline.UnixMilli()
+			c.pool.submit(&j, collect(base))
+			continue
+		}
+		sp := base
+		sp.Mode = "split"
+		c.pool.submit(&sp, func(jr *JobResult) {
+			if jr.Err != "" {
+				c.mu.Lock()
+				c.errs = append(c.errs, jr.Err)
+				ls.Complete = false
+				c.mu.Unlock()
+				return
+			}
+			for _, leaf := range jr.Leaves {
+				j := base
+				j.Mode = "explore"
+				j.Prefix = leaf
+				j.Deadline = c.deadline.UnixMilli()
+				if time.Now().After(c.deadline) {
+					c.mu.Lock()
+					ls.Complete = false
+					c.mu.Unlock()
+					return
+				}
+				c.pool.submit(&j, collect(base))
+			}
+		})
+	}
+	c.pool.drain()
+	ls.WallS = time.Since(t0).Seconds()
+	return ls
+}
+
+// sample replays one execution with tracing and keeps it for the evidence file.
+func (c *campaign) sample(job Job, choices []int) *Sample {
+	job.Mode, job.Choices, job.Trace = "replay", choices, true
+	var out *Sample
+	done := make(chan struct{})
+	c.pool.submit(&job, func(jr *JobResult) { out = jr.Sample; close(done) })
+	<-done
+	return out
+}
+
+// confirm replays a violating execution 5 times; it must show the same violation signature every time.
+func (c *campaign) confirm(fv *foundV) (int, string) {
+	ok := 0
+	detail := ""
+	for i := 0; i < 5; i++ {
+		job := fv.job
+		job.Mode, job.Choices = "replay", fv.choices
+		done := make(chan *JobResult, 1)
+		c.pool.submit(&job, func(jr *JobResult) { done <- jr })
+		jr := <-done
+		if jr.Err != "" {
+			detail = jr.Err
+			continue
+		}
+		if jr.ViolCount[fv.v.Sig] > 0 {
+			ok++
+		} else {
+			detail = fmt.Sprintf("replay %d did not show %s (observed %v)", i, fv.v.Sig, jr.Obs)
+		}
+	}
+	return ok, detail
+}
+
+type replayCfg struct {
+	Job Job `json:"job"`
+}
+
+func (c *campaign) writeReplay(fv *foundV, note string) string {
+	job := fv.job
+	job.Mode, job.Choices, job.Prefix, job.Deadline = "replay", fv.choices, nil, 0
+	cfg, _ := json.Marshal(replayCfg{Job: job})
+	path := make([]string, len(fv.choices))
+	for i, x := range fv.choices {
+		path[i] = strconv.Itoa(x)
+	}
+	return kernel.WriteReplay(&kernel.Replay{
+		Property: c.prop, Engine: "ed", Cfg: cfg, Path: path,
+		Violation: kernel.Violation{Oracle: fv.v.Oracle, Signature: fv.v.Sig, Detail: fv.v.Detail},
+		Note:      note + " | harness " + job.Harness + ", configuration: " + job.cfgString() + " | path = the answer at every choice point of the scheduler (0 = default: keep running the current thread if enabled, else lowest thread id; k = k-th alternative). Re-run: /verif/build/ed replay <this file>",
+	})
+}
+
+// report prints VIOLATION / KNOWN-FINDING lines after confirming each distinct violation; returns (#new, #known, harness error).
+func (c *campaign) report() (int, int, bool) {
+	findings := kernel.LoadFindings()
+	sigs := make([]string, 0, len(c.viol))
+	for s := range c.viol {
+		sigs = append(sigs, s)
+	}
+	sort.Strings(sigs)
+	nNew, nKnown := 0, 0
+	for _, s := range sigs {
+		fv := c.viol[s]
+		ok, detail := c.confirm(fv)
+		if ok != 5 {
+			fmt.Printf("HARNESS-ERROR property=%s violation %s reproduced only %d/5 times: %s\n", c.prop, s, ok, detail)
+			return nNew, nKnown, true
+		}
+		p := c.writeReplay(fv, fmt.Sprintf("seen in %d execution(s) of this run; reproduced 5/5", fv.count))
+		if kf := kernel.KnownFor(findings, c.prop, s); kf != nil {
+			fmt.Printf("KNOWN-FINDING: property=%s %s (signature %s, replay=%s)\n", c.prop, kf.What, s, p)
+			nKnown++
+			continue
+		}
+		fmt.Printf("VIOLATION property=%s replay=%s\n  signature: %s (%d executions)\n  %s\n", c.prop, p, s, fv.count, strings.SplitN(fv.v.Detail, "\n", 2)[0])
+		nNew++
+	}
+	return nNew, nKnown, false
+}
+
+func replayFile(path string) int {
+	Quiet()
+	r, err := kernel.ReadReplay(path)
+	if err != nil {
+		fmt.Fprintln(os.Stderr, "replay:", err)
+		return 2
+	}
+	var rc replayCfg
+	if err := json.Unmarshal(r.Cfg, &rc); err != nil {
+		fmt.Fprintln(os.Stderr, "replay: bad cfg:", err)
+		return 2
+	}
+	job := rc.Job
+	job.Mode, job.Trace = "replay", true
+	job.Choices = nil
+	for _, s := range r.Path {
+		n, _ := strconv.Atoi(s)
+		job.Choices = append(job.Choices, n)
+	}
+	fmt.Printf("replaying %s: %s\nexpected: %s\n", job.Harness, job.cfgString(), r.Violation.Signature)
+	fmt.Println("step  thread   operation                at (function, file:line of the generated source under /verif/build/ovl-d)")
+	jr := RunJob(&job)
+	if jr.Sample != nil {
+		for _, l := range jr.Sample.Schedule {
+			fmt.Println(l)
+		}
+		fmt.Println("final observation:", jr.Sample.Obs)
+	}
+	if jr.Err != "" {
+		fmt.Println("harness error:", jr.Err)
+		return 2
+	}
+	for sig, g := range jr.Gray {
+		fmt.Printf("observation (not a violation): %s — %s\n", sig, g.Note)
+	}
+	hit := false
+	for _, v := range jr.Viol {
+		fmt.Printf("violation: %s\n  %s\n", v.Viol.Sig, v.Viol.Detail)
+		if v.Viol.Sig == r.Violation.Signature {
+			hit = true
+		}
+	}
+	if jr.Stacks != "" {
+		fmt.Println("goroutine dump at the end of the execution:\n" + jr.Stacks)
+	}
+	if len(jr.Viol) == 0 {
+		fmt.Println("no violation in this execution")
+		return 0
+	}
+	if !hit && r.Violation.Signature != "" && !strings.HasPrefix(r.Violation.Oracle, "observation") {
+		fmt.Println("(the recorded signature was not reproduced)")
+	}
+	return 1
+}
+
+// ---------------------------------------------------------------------------------------------------------------
+// C15
+
+func c15Scenarios(tier string) []Scenario {
+	lv := func(x ...[3]int) []Bounds {
+		var out []Bounds
+		for _, b := range x {
+			out = append(out, Bounds{P: b[0], T: b[1], Total: b[2]})
+		}
+		return out
+	}
+	if tier == "thorough" {
+		return []Scenario{
+			{"2x1", []string{"R", "W"}, lv([3]int{0, 0, 0}, [3]int{1, 1, 1}, [3]int{2, 1, 2}, [3]int{2, 1, 3}, [3]int{3, 2, 4})},
+			{"2x2", []string{"RS", "WP"}, lv([3]int{0, 0, 0}, [3]int{1, 1, 1}, [3]int{2, 1, 2}, [3]int{3, 2, 3})},
+			{"3x1", []string{"R", "W", "R"}, lv([3]int{0, 0, 0}, [3]int{1, 1, 1}, [3]int{2, 1, 2}, [3]int{3, 2, 3})},
+			{"3x211", []string{"RS", "W", "P"}, lv([3]int{0, 0, 0}, [3]int{1, 1, 1}, [3]int{2, 1, 2}, [3]int{3, 2, 3})},
+		}
+	}
+	return []Scenario{
+		{"2x1", []string{"R", "W"}, lv([3]int{0, 0, 0}, [3]int{1, 1, 1}, [3]int{2, 1, 2}, [3]int{2, 1, 3})},
+		{"2x2", []string{"RS", "WP"}, lv([3]int{0, 0, 0}, [3]int{1, 1, 1}, [3]int{2, 1, 2})},
+	}
+}
+
+func checkC15() int {
+	t0 := time.Now()
+	tier, seed := kernel.Tier(), kernel.Seed()
+	budget := 150 * time.Second
+	if tier == "thorough" {
+		budget = 20 * time.Minute
+	}
+	Quiet()
+	fmt.Printf("C15 tier=%s: codec product space ...\n", tier)
+	codec := CheckCodec()
+	fmt.Printf("  %d round trips, %d truncations, %d bad-magic frames, %d streams; %d violations\n", codec.RoundTrips, codec.Truncations, codec.BadMagic, codec.BackToBack, len(codec.Violations))
+
+	raceCh := make(chan *RaceSummary, 1)
+	go func() { raceCh <- runRacePass("C15") }()
+	c := newCampaign("C15", budget)
+	defer c.pool.close()
+	for _, v := range codec.Violations {
+		if c.viol[v.Sig] == nil {
+			c.viol[v.Sig] = &foundV{v: v, job: Job{Harness: "codec"}}
+		}
+		c.viol[v.Sig].count++
+	}
+	scs := c15Scenarios(tier)
+	type scStat struct {
+		Name         string       `json:"scenario"`
+		Callers      []string     `json:"callers"`
+		Permutations int          `json:"reply_orders"`
+		FaultVars    int          `json:"fault_variants"`
+		Configs      int          `json:"configurations"`
+		Levels       []*levelStat `json:"levels"`
+		Completed    *Bounds      `json:"bounds_completed"`
+	}
+	var stats []*scStat
+	jobsOf := map[string][]Job{}
+	perms, faultVars := 0, 0
+	for _, sc := range scs {
+		cfgs := C15Configs(sc)
+		st := &scStat{Name: sc.Name, Callers: sc.Callers, Permutations: len(linearExtensions(sc.Callers)), Configs: len(cfgs)}
+		for i := range cfgs {
+			cf := cfgs[i]
+			jobsOf[sc.Name] = append(jobsOf[sc.Name], Job{Harness: "C15", C15: &cf})
+			if cf.Fault != "" {
+				st.FaultVars++
+			}
+		}
+		perms += st.Permutations
+		faultVars += st.FaultVars
+		stats = append(stats, st)
+	}
+	maxLv := 0
+	for _, sc := range scs {
+		if len(sc.Levels) > maxLv {
+			maxLv = len(sc.Levels)
+		}
+	}
+	exhaustive := true
+	stopped := map[string]bool{}
+levels:
+	for li := 0; li < maxLv; li++ {
+		for si, sc := range scs {
+			if li >= len(sc.Levels) || stopped[sc.Name] {
+				continue
+			}
+			if time.Now().After(c.deadline) {
+				exhaustive = false
+				break levels
+			}
+			b := sc.Levels[li]
+			ls := c.runLevel(sc.Name, jobsOf[sc.Name], b)
+			stats[si].Levels = append(stats[si].Levels, ls)
+			fmt.Printf("  %-6s %-22s %4d configs %9d executions %11d points  %.1fs complete=%v\n", sc.Name, b, ls.Configs, ls.Executions, ls.Points, ls.WallS, ls.Complete)
+			if len(c.errs) > 0 {
+				break levels
+			}
+			if ls.Complete {
+				bb := b
+				stats[si].Completed = &bb
+			} else {
+				exhaustive = false
+				stopped[sc.Name] = true
+			}
+		}
+	}
+	if len(c.errs) > 0 {
+		fmt.Printf("HARNESS-ERROR property=C15 %s\n", c.errs[0])
+		return 2
+	}
+	for si, sc := range scs {
+		if stats[si].Completed == nil || *stats[si].Completed != sc.Levels[len(sc.Levels)-1] {
+			exhaustive = false
+		}
+	}
+	// samples: the default schedule of a fault-free and of a faulty configuration, and one with deviations
+	var samples []interface{}
+	for _, sj := range []struct {
+		job     Job
+		choices []int
+	}{
+		{jobsOf[scs[0].Name][0], nil},
+		{jobsOf[scs[0].Name][1], nil},
+		{jobsOf[scs[len(scs)-1].Name][0], []int{0, 0, 0, 0, 0, 1, 0, 0, 0, 0, 0, 0, 0, 0, 0, 0, 0, 0, 0, 0, 1}},
+	} {
+		if s := c.sample(sj.job, sj.choices); s != nil {
+			samples = append(samples, s)
+		}
+	}
+	// gray-area observations get a replay artefact each, so they can be looked at
+	grayOut := map[string]*grayAgg{}
+	for sig, g := range c.gray {
+		fv := &foundV{v: Viol{Oracle: "observation (gray area, not a violation)", Sig: sig, Detail: g.Note}, job: g.job, choices: g.Choices, count: g.Count}
+		g.Replay = c.writeReplayIn("C15-observations", fv)
+		grayOut[sig] = g
+	}
+	race := <-raceCh
+	nNew, nKnown, herr := c.report()
+	if herr {
+		return 2
+	}
+	// evidence
+	minP, minT := -1, -1
+	var lastEx, lastPts int64
+	for _, st := range stats {
+		if st.Completed == nil {
+			minP, minT = 0, 0
+			continue
+		}
+		if minP < 0 || st.Completed.P < minP {
+			minP = st.Completed.P
+		}
+		if minT < 0 || st.Completed.T < minT {
+			minT = st.Completed.T
+		}
+		for _, l := range st.Levels {
+			if l.Complete && l.Bounds == *st.Completed {
+				lastEx += l.Executions
+				lastPts += l.Points
+			}
+		}
+	}
+	obsKeys := make([]string, 0, len(c.obs))
+	for k := range c.obs {
+		obsKeys = append(obsKeys, k)
+	}
+	sort.Strings(obsKeys)
+	codecCases := codec.RoundTrips + codec.Truncations + codec.BadMagic + codec.BackToBack
+	ev := &kernel.Evidence{
+		PropertyID: "C15", Tier: tier, Seed: seed, Level: "model_checking",
+		Coverage: map[string]interface{}{
+			"states":                        len(c.obs),
+			"transitions":                   c.totalPts,
+			"traces_validated_against_impl": c.totalEx,
+			"rule": "stateless deviation-bounded DFS over the schedules of the REAL rpc.Client (rewritten by /verif/tools/instr: every go/chan/select/lock/timer is a scheduling point of a cooperative scheduler, one thread runs at a time). A configuration = caller threads x operations x reply order of the scripted peer (every linear extension of the callers' program orders) x fault variant (none | at reply k the peer stalls / closes / sends a bad-magic header, either instead of reply k or immediately after reply k-1). Within a configuration every choice sequence with <= P non-default thread choices (preemptions, non-lowest-id continuation after a block, non-first ready select case) and <= T early timer firings (P+T <= total) is executed to quiescence (all armed timers fired). states = distinct (scenario, final observation) pairs, where the observation is every request's result class, poisoned flag, closeChan tokens, live client threads; transitions = scheduling points executed (all levels); traces_validated_against_impl = executions run on the real code (all levels; the levels are cumulative, executions_at_completed_bound counts the last completed level only).",
+			"samples":                     samples,
+			"exhaustive":                  exhaustive,
+			"preemption_bound_completed":  minP,
+			"timer_deviation_bound_completed": minT,
+			"executions":                  lastEx,
+			"executions_all_levels":       c.totalEx,
+			"scheduling_points_at_completed_bound": lastPts,
+			"distinct_outcomes":           len(c.obs),
+			"outcomes":                    obsCounts(c.obs, 60),
+			"permutations":                perms,
+			"fault_variants":              faultVars,
+			"scenarios":                   stats,
+			"codec_cases":                 codecCases,
+			"codec":                       codec,
+			"race_pass":                   race,
+			"gray_area_observations":      grayOut,
+			"known_findings_matched":      nKnown,
+		},
+		Assumptions: []string{
+			"sequential consistency between scheduling points: code between two hooked operations (bufio, encoding/binary, logrus, journal bookkeeping, the in-memory connection) runs atomically; unsynchronised fields (Client.err in operation, Wire.readExit/writeExit in Close) get an explicit scheduling point before each access; the free-running -race pass lists the races this hides",
+			"bounded: 2 (thorough 3) caller threads with 1-2 operations, deviation bounds as reported per scenario; the default continuation after a blocked thread is the lowest thread id, any other choice costs one deviation",
+			"the connection is an in-memory duplex stream with TCP-like half-close; rpc.Wire's type assertion *net.TCPConn is rewritten to the interface vs.HalfCloser (which *net.TCPConn satisfies) so that Client.Close runs its real shutdown/poll path",
+			"virtual time: timers fire when no thread can run, or earlier as a counted deviation; 'promptly' is judged on armed deadlines: a request must not need its own 30/40 s deadline when the client was poisoned more than the implementation's own 2 s settle delay before it",
+			"map iteration over Client.messages in handleResponse is replaced by ascending-seq order (deterministic replay); the order in which in-flight requests are failed is therefore not varied",
+			"wall-clock RPC time-outs and killed processes are represented by timer-fired / connection-closed events on the same code paths",
+			"codec: truncation of the 64 KiB frame is checked at the header, both ends and every 4 KiB boundary +-1 (all other frames: every byte); corrupted length fields are not enumerated (they only change how much is read)",
+		},
+		WallS: time.Since(t0).Seconds(), Violations: nNew,
+	}
+	if err := kernel.WriteEvidence(ev); err != nil {
+		fmt.Fprintln(os.Stderr, "evidence:", err)
+		return 2
+	}
+	fmt.Printf("C15: %d executions (%d at the completed bounds), %d scheduling points, %d distinct outcomes, bounds completed P=%d T=%d, exhaustive=%v, %d gray-area observation kinds, %d violations, %d known, %.0fs\n",
+		c.totalEx, lastEx, c.totalPts, len(c.obs), minP, minT, exhaustive, len(c.gray), nNew, nKnown, time.Since(t0).Seconds())
+	printGray(grayOut)
+	if nNew > 0 {
+		return 1
+	}
+	return 0
+}
+
+// printGray prints one line per class of gray-area observation (the evidence file has every signature).
+func printGray(g map[string]*grayAgg) {
+	type cls struct {
+		n    int64
+		sigs int
+		ex   *grayAgg
+		sig  string
+	}
+	m := map[string]*cls{}
+	for sig, a := range g {
+		k := strings.SplitN(sig, ":", 2)[0]
+		c := m[k]
+		if c == nil {
+			c = &cls{}
+			m[k] = c
+		}
+		c.n += a.Count
+		c.sigs++
+		if c.ex == nil || len(a.Choices) < len(c.ex.Choices) || (len(a.Choices) == len(c.ex.Choices) && sig < c.sig) {
+			c.ex, c.sig = a, sig
+		}
+	}
+	ks := make([]string, 0, len(m))
+	for k := range m {
+		ks = append(ks, k)
+	}
+	sort.Strings(ks)
+	for _, k := range ks {
+		c := m[k]
+		fmt.Printf("OBSERVATION (gray area, not counted as a violation) %s: %d executions in %d signatures, e.g. %s [%s] replay=%s\n  %s\n", k, c.n, c.sigs, c.sig, c.ex.Config, c.ex.Replay, c.ex.Note)
+	}
+}
+
+func (c *campaign) writeReplayIn(dir string, fv *foundV) string {
+	save := c.prop
+	c.prop = dir
+	p := c.writeReplay(fv, fmt.Sprintf("seen in %d execution(s)", fv.count))
+	c.prop = save
+	return p
+}
+
+func obsCounts(m map[string]int64, max int) map[string]int64 {
+	out := map[string]int64{}
+	ks := sortedKeys(m)
+	for i, k := range ks {
+		if i >= max {
+			out["... ("+strconv.Itoa(len(ks)-max)+" more)"] = 0
+			break
+		}
+		out[k] = m[k]
+	}
+	return out
+}
+
+// ---------------------------------------------------------------------------------------------------------------
+// free-running race pass
+
+type RaceSummary struct {
+	Ran     bool     `json:"ran"`
+	Runs    int      `json:"runs"`
+	Reports int      `json:"race_reports"`
+	Races   []string `json:"distinct_races"`
+	Note    string   `json:"note"`
+}
+
+var raceFrame = regexp.MustCompile(`^\s+((?:github.com/openebs/jiva|verif/harness)\S*)\(\)\s*$`)
+
+// runRacePass runs `ed-race racepass <id>` (the same harness bodies, no scheduler, pass-through shims) and summarises
+// the race detector's reports.
+func runRacePass(id string) *RaceSummary {
+	rs := &RaceSummary{}
+	self, _ := os.Executable()
+	bin := filepath.Join(filepath.Dir(self), "ed-race")
+	if _, err := os.Stat(bin); err != nil {
+		rs.Note = "race binary not built (bin/build-ed race)"
+		return rs
+	}
+	logp := filepath.Join(filepath.Dir(self), "race-"+id)
+	old, _ := filepath.Glob(logp + ".*")
+	for _, f := range old {
+		os.Remove(f)
+	}
+	cmd := exec.Command(bin, "racepass", id)
+	cmd.Env = append(os.Environ(), "GORACE=log_path="+logp+" halt_on_error=0 history_size=3")
+	outb, err := cmd.CombinedOutput()
+	rs.Ran = true
+	if m := regexp.MustCompile(`runs=(\d+)`).FindSubmatch(outb); m != nil {
+		rs.Runs, _ = strconv.Atoi(string(m[1]))
+	}
+	if err != nil {
+		if _, isExit := err.(*exec.ExitError); !isExit {
+			rs.Note = "race pass failed to run: " + err.Error()
+			return rs
+		}
+	}
+	files, _ := filepath.Glob(logp + ".*")
+	seen := map[string]bool{}
+	for _, f := range files {
+		b, _ := os.ReadFile(f)
+		for _, rep := range strings.Split(string(b), "WARNING: DATA RACE")[1:] {
+			rs.Reports++
+			// first jiva/harness frame of each of the two accesses
+			var tops []string
+			for _, sec := range strings.Split(rep, "\n\n") {
+				h := strings.TrimSpace(sec)
+				if !(strings.HasPrefix(h, "Read at") || strings.HasPrefix(h, "Write at") || strings.HasPrefix(h, "Previous read at") || strings.HasPrefix(h, "Previous write at")) {
+					continue
+				}
+				kind := strings.Fields(h)[0]
+				if kind == "Previous" {
+					kind = strings.Fields(h)[1]
+				}
+				for _, l := range strings.Split(sec, "\n") {
+					if m := raceFrame.FindStringSubmatch(l); m != nil && !strings.Contains(m[1], "verifshim") {
+						fn := m[1]
+						fn = strings.TrimPrefix(fn, "github.com/openebs/jiva/")
+						if strings.Contains(fn, ".Verif") {
+							fn += " [read-only accessor called by the harness]"
+						}
+						tops = append(tops, strings.ToLower(kind)+" in "+fn)
+						break
+					}
+				}
+			}
+			sort.Strings(tops)
+			k := strings.Join(tops, "  <->  ")
+			if k != "" && !seen[k] {
+				seen[k] = true
+				rs.Races = append(rs.Races, k)
+			}
+		}
+	}
+	sort.Strings(rs.Races)
+	rs.Note = "free-running (no scheduler, pass-through vs/vsync, real time divided by 1000) under the Go race detector; races on the unchanged tree are limits of the sequential-consistency assumption of the scheduler, not property violations"
+	return rs
+}
+
+func racePass(id string) int {
+	Quiet()
+	runs := 0
+	switch id {
+	case "C15":
+		for rep := 0; rep < 1; rep++ {
+			for _, sc := range c15Scenarios("quick") {
+				for _, cf := range C15Configs(sc) {
+					_, body := RunC15(cf, func() bool { return true })
+					body()
+					runs++
+				}
+			}
+		}
+	case "C10conc":
+		runs = raceC10()
+	}
+	fmt.Printf("runs=%d\n", runs)
+	return 0
+}
+
+// ---------------------------------------------------------------------------------------------------------------
+// C10conc / C05mon: one list of configurations, cumulative deviation levels, a part-evidence file
+
+func checkSimple(prop, harness, evName string) int {
+	t0 := time.Now()
+	tier, seed := kernel.Tier(), kernel.Seed()
+	budget := 100 * time.Second
+	if tier == "thorough" {
+		budget = 10 * time.Minute
+	}
+	Quiet()
+	c := newCampaign(prop, budget)
+	defer c.pool.close()
+	var jobs []Job
+	var levels []Bounds
+	switch harness {
+	case "C10conc":
+		for _, cf := range c10Configs(tier) {
+			cf := cf
+			jobs = append(jobs, Job{Harness: harness, C10: &cf})
+		}
+		levels = []Bounds{{0, 0, 0}, {1, 0, 1}, {2, 0, 2}, {3, 0, 3}}
+		if tier == "thorough" {
+			levels = append(levels, Bounds{4, 0, 4})
+		}
+	case "C05mon":
+		for _, cf := range c05Configs(tier) {
+			cf := cf
+			jobs = append(jobs, Job{Harness: harness, C05: &cf})
+		}
+		levels = []Bounds{{0, 0, 0}, {1, 1, 1}, {2, 1, 2}, {3, 1, 3}}
+		if tier == "thorough" {
+			levels = append(levels, Bounds{3, 2, 4})
+		}
+	}
+	var stats []*levelStat
+	var completed *Bounds
+	exhaustive := true
+	for _, b := range levels {
+		if time.Now().After(c.deadline) {
+			exhaustive = false
+			break
+		}
+		ls := c.runLevel(harness, jobs, b)
+		stats = append(stats, ls)
+		fmt.Printf("  %-8s %-22s %4d configs %9d executions %11d points  %.1fs complete=%v\n", harness, b, ls.Configs, ls.Executions, ls.Points, ls.WallS, ls.Complete)
+		if len(c.errs) > 0 {
+			fmt.Printf("HARNESS-ERROR property=%s %s\n", prop, c.errs[0])
+			return 2
+		}
+		if !ls.Complete {
+			exhaustive = false
+			break
+		}
+		bb := b
+		completed = &bb
+	}
+	var samples []interface{}
+	if s := c.sample(jobs[len(jobs)-1], nil); s != nil {
+		samples = append(samples, s)
+	}
+	if s := c.sample(jobs[len(jobs)-1], []int{0, 0, 1, 0, 0, 0, 1}); s != nil {
+		samples = append(samples, s)
+	}
+	grayOut := map[string]*grayAgg{}
+	for sig, g := range c.gray {
+		fv := &foundV{v: Viol{Oracle: "observation (gray area, not a violation)", Sig: sig, Detail: g.Note}, job: g.job, choices: g.Choices, count: g.Count}
+		g.Replay = c.writeReplayIn(prop+"-observations", fv)
+		grayOut[sig] = g
+	}
+	var race *RaceSummary
+	if harness == "C10conc" {
+		race = runRacePass(harness)
+	}
+	nNew, nKnown, herr := c.report()
+	if herr {
+		return 2
+	}
+	var lastEx int64
+	pb := 0
+	if completed != nil {
+		pb = completed.P
+		for _, l := range stats {
+			if l.Bounds == *completed {
+				lastEx = l.Executions
+			}
+		}
+	}
+	ev := &kernel.Evidence{
+		PropertyID: prop, Tier: tier, Seed: seed, Level: "model_checking",
+		Coverage: map[string]interface{}{
+			"engine":                        "E-D " + harness,
+			"states":                        len(c.obs),
+			"transitions":                   c.totalPts,
+			"traces_validated_against_impl": c.totalEx,
+			"rule":                          "stateless deviation-bounded DFS over thread schedules of the real code under the cooperative scheduler (see C15); states = distinct final observations, transitions = scheduling points executed, traces = executions (levels are cumulative)",
+			"samples":                       samples,
+			"exhaustive":                    exhaustive,
+			"preemption_bound_completed":    pb,
+			"executions":                    lastEx,
+			"executions_all_levels":         c.totalEx,
+			"distinct_outcomes":             len(c.obs),
+			"outcomes":                      obsCounts(c.obs, 80),
+			"configurations":                len(jobs),
+			"levels":                        stats,
+			"gray_area_observations":        grayOut,
+			"known_findings_matched":        nKnown,
+			"race_pass":                     race,
+		},
+		Assumptions: simpleAssumptions(harness),
+		WallS:       time.Since(t0).Seconds(), Violations: nNew,
+	}
+	eb, _ := json.MarshalIndent(ev, "", " ")
+	os.MkdirAll(filepath.Join(kernel.OutDir(), "evidence"), 0755)
+	if err := os.WriteFile(filepath.Join(kernel.OutDir(), "evidence", evName+".json"), append(eb, '\n'), 0644); err != nil {
+		fmt.Fprintln(os.Stderr, "evidence:", err)
+		return 2
+	}
+	fmt.Printf("%s: %d executions (%d at the completed bound), %d scheduling points, %d distinct outcomes, bound completed P=%d, exhaustive=%v, %d violations, %d known, %.0fs -> evidence/%s.json\n",
+		harness, c.totalEx, lastEx, c.totalPts, len(c.obs), pb, exhaustive, nNew, nKnown, time.Since(t0).Seconds(), evName)
+	printGray(grayOut)
+	if nNew > 0 {
+		return 1
+	}
+	return 0
+}
+
+func simpleAssumptions(h string) []string {
+	switch h {
+	case "C10conc":
+		return []string{
+			"one real on-disk replica.Replica (16 x 4 KiB, O_DIRECT files in a scratch directory) per worker process, reused across executions: every execution starts from the counter value the previous one left (read before the threads start)",
+			"scheduling points: Replica.RLock/Lock (Go's writer preference modelled: a Lock call announces itself first), volume.rmLock, revisionLock; file-system calls between two points run atomically",
+			"the mode a write was applied in is the value of Replica.mode at the moment the write acquired Replica.RLock (recorded by a scheduler hook; SetReplicaMode needs the write lock), so the expected count is exact",
+			"persisted value: read back from the revision.counter block after every execution; close+reopen once per explored subtree (job), not per execution",
+		}
+	case "C05mon":
+		return []string{
+			"real remote.monitorPing / StopMonitoring and a real rpc.Client on the in-memory connection; the Remote value is built by an overlay-added constructor with the channel capacities of Factory.Create (closeChan 5, monitorChan 5)",
+			"the controller side is a consumer thread that receives from the monitor channel once (as Controller.monitoring does) ; virtual time is cut off at the configured horizon because the ping ticker never stops",
+		}
+	}
+	return nil
+}
